@@ -3,6 +3,7 @@ C07 — every spelling of a base32 secret decodes to exactly the same key bytes.
 -/
 import OtpVerif.Lemmas.Trim
 import OtpVerif.Lemmas.Base32
+import OtpVerif.Lemmas.DecoderDom
 import OtpVerif.Model.Otp
 import OtpVerif.Model.Ocra
 
@@ -183,6 +184,66 @@ theorem C07_reject_alphabet (s : Bytes) (h : ∃ c ∈ trimSpace s, secretCharOk
   simp only [this, if_true]
   exact ⟨_, rfl⟩
 
+open OtpVerif.Lemmas.Dec in
+/-- C07, rejection clause in full: `DecodeSecret` succeeds **iff** the trimmed text is data characters followed by
+'=' signs with a possible number of data characters (≡ 0, 2, 4, 5, 7 mod 8) and no more '=' than the canonical
+padding; every other text is answered with the `badSecret` error (no panic, no partial result). -/
+theorem C07_accept_iff (s : Bytes) : (∃ b, decodeSecret s = .ok b) ↔ Accept (trimSpace s) :=
+  decodeSecret_accept_iff s
+
+open OtpVerif.Lemmas.Dec in
+theorem C07_reject_otherwise (s : Bytes) (h : ¬ Accept (trimSpace s)) : decodeSecret s = .err .badSecret := by
+  rcases decodeSecret_err_or_ok s with h' | h'
+  · exact h'
+  · exact absurd ((C07_accept_iff s).mp h') h
+
+open OtpVerif.Lemmas.Dec in
+/-- impossible lengths: 1, 3 or 6 (mod 8) data characters, with any number of '=' after them -/
+theorem C07_reject_length (s data : Bytes) (j : Nat) (ht : trimSpace s = data ++ List.replicate j 61)
+    (hd : ∀ c ∈ data, isDataChar c = true) (hl : data.length % 8 = 1 ∨ data.length % 8 = 3 ∨ data.length % 8 = 6) :
+    decodeSecret s = .err .badSecret := by
+  apply C07_reject_otherwise
+  rintro ⟨data', j', h', hd', hj'⟩
+  have e : data' = data := by
+    rw [← takeWhile_data data' j' hd', ← h', ht, takeWhile_data data j hd]
+  subst e
+  omega
+
+open OtpVerif.Lemmas.Dec in
+/-- padding in the middle: a '=' followed, anywhere later, by a character that is not '=' -/
+theorem C07_reject_midpad (s a b d : Bytes) (c : UInt8) (ht : trimSpace s = a ++ 61 :: (b ++ c :: d)) (hc : c ≠ 61) :
+    decodeSecret s = .err .badSecret := by
+  apply C07_reject_otherwise
+  rintro ⟨data, j, h', hd, -⟩
+  have hmem : c ∈ (trimSpace s).dropWhile isDataChar := by
+    rw [ht]
+    exact mem_dropWhile_after a (b ++ c :: d) 61 (by decide) c (by simp)
+  have hdw : (data ++ List.replicate j 61).dropWhile isDataChar = List.replicate j 61 := by
+    have h1 := takeWhile_data data j hd
+    have h2 : (data ++ List.replicate j 61).takeWhile isDataChar ++ (data ++ List.replicate j 61).dropWhile isDataChar
+        = data ++ List.replicate j 61 := List.takeWhile_append_dropWhile
+    rw [h1] at h2
+    exact List.append_cancel_left h2
+  rw [h', hdw] at hmem
+  exact hc (List.eq_of_mem_replicate hmem)
+
+open OtpVerif.Lemmas.Dec in
+/-- too much padding: more '=' than the canonical amount is rejected as well (e.g. "MFRGG====") -/
+theorem C07_reject_overpad (s data : Bytes) (j : Nat) (ht : trimSpace s = data ++ List.replicate j 61)
+    (hd : ∀ c ∈ data, isDataChar c = true) (hj : (8 - data.length % 8) % 8 < j) :
+    decodeSecret s = .err .badSecret := by
+  apply C07_reject_otherwise
+  rintro ⟨data', j', h', hd', hj'⟩
+  have e : data' = data := by
+    rw [← takeWhile_data data' j' hd', ← h', ht, takeWhile_data data j hd]
+  subst e
+  have : j' = j := by
+    have := congrArg List.length (h'.symm.trans ht)
+    simpa using this
+  subst this
+  omega
+
+
 /-- every entry point sees the key only through `decodeSecret`: two texts that decode alike give equal results -/
 theorem C07_entrypoints (O : HashOracle) (s s' : Bytes) (h : decodeSecret s = decodeSecret s') :
     (∀ c p, generateHOTP O s c p = generateHOTP O s' c p) ∧
@@ -206,10 +267,22 @@ example : Spelling [97, 98, 99] [32, 109, 102, 82, 71, 71, 61, 10] :=
     .lower 77 (.lower 70 (.keep 82 (.keep 71 (.keep 71 (.keep 61 .nil))))), by decide, by decide, by decide⟩⟩
 example : decodeSecret [32, 109, 102, 82, 71, 71, 61, 10] = .ok [97, 98, 99] := by decide
 example : decodeSecret [77, 70, 82, 196, 177, 71] = .err .badSecret := by decide   -- U+0131 inside
+-- the hypotheses of the rejection theorems are satisfiable: "MFR" (3 data characters), "MF=RGG" (inner '='), "MFRGG===="
+example : decodeSecret [77, 70, 82] = .err .badSecret :=
+  C07_reject_length [77, 70, 82] [77, 70, 82] 0 (by decide) (by decide) (by decide)
+example : decodeSecret [77, 70, 61, 82, 71, 71] = .err .badSecret :=
+  C07_reject_midpad [77, 70, 61, 82, 71, 71] [77, 70] [] [71, 71] 82 (by decide) (by decide)
+example : decodeSecret [77, 70, 82, 71, 71, 61, 61, 61, 61] = .err .badSecret :=
+  C07_reject_overpad _ [77, 70, 82, 71, 71] 4 (by decide) (by decide) (by decide)
 
 end OtpVerif.Props.C07
 
 #print axioms OtpVerif.Props.C07.C07_spellings
 #print axioms OtpVerif.Props.C07.C07_reject_alphabet
+#print axioms OtpVerif.Props.C07.C07_accept_iff
+#print axioms OtpVerif.Props.C07.C07_reject_otherwise
+#print axioms OtpVerif.Props.C07.C07_reject_length
+#print axioms OtpVerif.Props.C07.C07_reject_midpad
+#print axioms OtpVerif.Props.C07.C07_reject_overpad
 #print axioms OtpVerif.Props.C07.C07_entrypoints
 #print axioms OtpVerif.Props.C07.C07_same_code
